@@ -83,6 +83,8 @@ where
                     listener_addr.display(),
                     err
                 );
+                // Report the failure to whoever unbinds or closes the socket.
+                return Err(err.into());
             }
         }
         Ok(())
